@@ -250,6 +250,7 @@ def vector_angle_between(vector1, vector2, **kwargs):
     magn1 = vector_magnitude(vector1)
     magn2 = vector_magnitude(vector2)
     acos_val = vector_dot(vector1, vector2) / (magn1 * magn2)
+    acos_val = max(-1.0, min(1.0, acos_val))  # rounding can push the cosine of (anti-)parallel vectors just outside [-1, 1]
     angle_radians = math.acos(acos_val)
     if degrees:
         return math.degrees(angle_radians)
